@@ -95,8 +95,12 @@ HintOf(e, run, pc, pf) ==
 NoPanic(run) == run.res.st \in {"ok", "err"}
 
 \* the error class / success is one the specification admits in the pre-state
+\* a store may refuse a transaction as a whole (badger: larger than its size limit); the call then
+\* fails with the store's error, whatever the operation
+StoreRefused(e, run) == e.op \in WriteOps /\ HasField(run.res, "storelimit")
+
 OutcomeOk(e, run, pc, pf) ==
-    /\ run.res.st = "err" => run.res.err \in Errs(pc, pf, e)
+    /\ run.res.st = "err" => (run.res.err \in Errs(pc, pf, e) \/ StoreRefused(e, run))
     /\ run.res.st = "ok"  => CanOk(pc, pf, e) /\ HintOk(pc, pf, e, HintOf(e, run, pc, pf))
 
 \* returned values of the read operations (C01 C08 C09 C12 C13 C14)
